@@ -131,12 +131,19 @@ func (vc *VC) findPackage(name string, from *types.Package) *types.Package {
 			}
 		}
 	}
+	var cand *types.Package
 	for _, p := range vc.prog.SSA.AllPackages() {
-		if p.Pkg.Path() == name || p.Pkg.Name() == name || shortPkg(p.Pkg.Path()) == name {
+		if p.Pkg.Path() == name || shortPkg(p.Pkg.Path()) == name {
 			return p.Pkg
 		}
+		if p.Pkg.Name() == name {
+			// several packages may share a name (unix): prefer the non-internal one
+			if cand == nil || strings.Contains(cand.Path(), "internal/") {
+				cand = p.Pkg
+			}
+		}
 	}
-	return nil
+	return cand
 }
 
 func (vc *VC) evalSpec(x SExpr, env *Env) (tv TV) {
@@ -190,7 +197,11 @@ func (vc *VC) evalSpec(x SExpr, env *Env) (tv TV) {
 				ranges = append(ranges, vc.typeInv(t, ty.Go))
 			}
 		}
-		body := vc.evalBool(x.Body, e2)
+		vc.inQuant++
+		body := func() Term {
+			defer func() { vc.inQuant-- }()
+			return vc.evalBool(x.Body, e2)
+		}()
 		if x.Forall {
 			return TV{T: Forall(vars, Implies(And(ranges...), body)), Ty: goTy(types.Typ[types.Bool])}
 		}
@@ -395,9 +406,9 @@ func (vc *VC) evalBinary(x *SBinary, env *Env) TV {
 	a, b = vc.unify(a, b)
 	switch x.Op {
 	case "==":
-		return TV{T: Eq(a.T, b.T), Ty: boolTy}
+		return TV{T: vc.eqVal(a.T, b.T), Ty: boolTy}
 	case "!=":
-		return TV{T: Not(Eq(a.T, b.T)), Ty: boolTy}
+		return TV{T: Not(vc.eqVal(a.T, b.T)), Ty: boolTy}
 	}
 	if a.Ty.Go == nil {
 		specFail("arithmetic on ghost map")
@@ -530,6 +541,10 @@ func (vc *VC) pkgLevel(pkg *types.Package, name string, env *Env) (TV, bool) {
 			}
 			if gv := sp.Var(name); gv != nil {
 				ref := vc.globalRef(gv)
+				if vc.prog.Frozen[gv] && !isInitFunc(vc.fn) {
+					vc.usedGlobals[gv] = true
+					return TV{T: vc.load(State{}, ref, o.Type()), Ty: goTy(o.Type())}, true
+				}
 				return TV{T: vc.load(env.state, ref, o.Type()), Ty: goTy(o.Type())}, true
 			}
 		}
@@ -745,12 +760,90 @@ func (vc *VC) evalCall(x *SCall, env *Env) TV {
 		s := vc.evalSpec(x.Args[0], env)
 		i := vc.materialize(vc.evalSpec(x.Args[1], env), intTy)
 		return TV{T: vc.elem(vc.sliceArr(s.T), vc.add(vc.sliceOff(s.T), vc.toIdx(i))), Ty: goTy(types.Typ[types.UnsafePointer])}
+	case "addrof":
+		ref, t := vc.lvalue(x.Args[0], env)
+		return TV{T: ref, Ty: goTy(types.NewPointer(t))}
+	case "has":
+		// has(m, k): key k is present in Go map m
+		m := vc.evalSpec(x.Args[0], env)
+		mt, ok := m.Ty.Go.Underlying().(*types.Map)
+		if !ok {
+			specFail("has(m,k): m must be a Go map")
+		}
+		k := vc.materialize(vc.evalSpec(x.Args[1], env), goTy(mt.Key()))
+		return TV{T: And(Not(Eq(m.T, TNull)), vc.mapHas(env.state, m.T, k.T, mt)), Ty: boolTy}
+	case "sarr":
+		v := vc.evalSpec(x.Args[0], env)
+		if v.T.Sort != SSlice {
+			specFail("sarr of non-slice")
+		}
+		return TV{T: vc.sliceArr(v.T), Ty: goTy(types.Typ[types.UnsafePointer])}
+	case "soff":
+		v := vc.evalSpec(x.Args[0], env)
+		if v.T.Sort != SSlice {
+			specFail("soff of non-slice")
+		}
+		return TV{T: vc.sliceOff(v.T), Ty: intTy}
+	case "deref_as":
+		// deref_as(p, T): the value of Go type T stored at reference p
+		v := vc.evalSpec(x.Args[0], env)
+		tn, ok := dottedName(x.Args[1])
+		if !ok {
+			specFail("deref_as: second argument must be a type name")
+		}
+		ty := vc.parseSpecType(tn, env.pkg)
+		return TV{T: vc.load(env.state, vc.refOf(v), ty.Go), Ty: ty}
+	case "ref_as":
+		// ref_as(p, T): p viewed as a *T
+		v := vc.evalSpec(x.Args[0], env)
+		tn, ok := dottedName(x.Args[1])
+		if !ok {
+			specFail("ref_as: second argument must be a type name")
+		}
+		ty := vc.parseSpecType(tn, env.pkg)
+		return TV{T: vc.refOf(v), Ty: goTy(types.NewPointer(ty.Go))}
+	case "iface":
+		// iface(x): x boxed in an interface value (scalars and pointers only)
+		v := vc.evalSpec(x.Args[0], env)
+		if v.Ty == nil || v.Ty.Go == nil {
+			specFail("iface() of untyped value")
+		}
+		ti := vc.info(v.Ty.Go)
+		var box Term
+		switch ti.kind {
+		case "ref":
+			box = v.T
+		case "int":
+			box = App(SRef, "boxi", vc.convInt(v.T, ti.bits, ti.signed, 64, ti.signed))
+		case "str":
+			box = App(SRef, "boxs", v.T)
+		case "bool":
+			box = App(SRef, "boxb", v.T)
+		default:
+			specFail("iface() of composite value")
+		}
+		return TV{T: App(SIface, "mkiface", IntLit(int64(vc.typeID(v.Ty.Go))), box), Ty: goTy(types.Universe.Lookup("error").Type())}
+	case "unbox_int":
+		// unbox_int(i): the integer payload of an interface value holding an integer type
+		v := vc.evalSpec(x.Args[0], env)
+		return TV{T: App(vc.idxSort(), "bival", App(SRef, "ival", v.T)), Ty: intTy}
 	case "typeof":
 		v := vc.evalSpec(x.Args[0], env)
 		if v.T.Sort != SIface {
 			specFail("typeof needs an interface value")
 		}
+		if vc.mode == ModeBV {
+			specFail("typeof only in comparisons via hastype()")
+		}
 		return TV{T: App(SInt, "ityp", v.T), Ty: goTy(types.Typ[types.Int])}
+	case "hastype":
+		v := vc.evalSpec(x.Args[0], env)
+		tn, ok := dottedName(x.Args[1])
+		if !ok {
+			specFail("hastype: second argument must be a type name")
+		}
+		ty := vc.parseSpecType(tn, env.pkg)
+		return TV{T: Eq(App(SInt, "ityp", v.T), IntLit(int64(vc.typeID(ty.Go)))), Ty: boolTy}
 	case "isnil":
 		v := vc.evalSpec(x.Args[0], env)
 		return TV{T: Eq(v.T, vc.zero(v.Ty.Go)), Ty: boolTy}
